@@ -1,4 +1,454 @@
+// C13: every algorithm of the internal parallel layer, instantiated with
+// ExecutionPolicy::Par under simulated schedules, must return exactly what the
+// sequential standard algorithm returns; the lock-free containers must behave
+// like their sequential specification under every explored interleaving of
+// 2-3 simulated client threads with a sync point before every atomic step.
+#include <algorithm>
+#include <numeric>
+#include <set>
+#include <unordered_map>
+
+#include "disjoint_sets.h"
+#include "hashtable.h"
 #include "jobs.h"
+#include "parallel.h"
+#include "vec.h"
+
 namespace vh {
-void register_c13() {}
+namespace {
+using namespace manifold;
+
+struct KT {
+  int key;
+  int tag;
+  bool operator==(const KT& o) const { return key == o.key && tag == o.tag; }
+};
+struct KeyLess {
+  bool operator()(const KT& a, const KT& b) const { return a.key < b.key; }
+};
+struct AbsSum {
+  int operator()(int a, int b) const { return abs(a) + abs(b); }
+};
+
+template <class V>
+std::string first_diff(const V& a, const V& b) {
+  if (a.size() != b.size()) return "size " + std::to_string(a.size()) + " vs " + std::to_string(b.size());
+  for (size_t i = 0; i < a.size(); i++)
+    if (!(a[i] == b[i])) return "index " + std::to_string(i);
+  return "";
+}
+
+template <class T>
+std::vector<T> gen_ints(Rng& r, size_t n, int dist) {
+  std::vector<T> v(n);
+  for (size_t i = 0; i < n; i++) {
+    uint64_t x = r.next();
+    switch (dist) {
+      case 0: v[i] = (T)x; break;                       // full range incl. negatives
+      case 1: v[i] = (T)(x % 7); break;                 // heavy duplication
+      case 2: v[i] = (T)((int64_t)(x % 2001) - 1000); break;  // small signed
+      case 3: v[i] = (T)(i); break;                     // already sorted
+      case 4: v[i] = (T)(n - i); break;                 // reversed
+      default: v[i] = (T)((x % 3 == 0) ? (T)(x >> 7) : (T)(x % 50)); break;
+    }
+  }
+  return v;
+}
+
+bool g_hasNeg = false;
+size_t g_maxRun = 0;
+
+template <class T>
+std::string sort_case(Rng& r, size_t n, int dist) {
+  std::vector<T> a = gen_ints<T>(r, n, dist), b = a;
+  for (auto& x : a)
+    if (x < 0) g_hasNeg = true;
+  manifold::stable_sort(ExecutionPolicy::Par, a.begin(), a.end());
+  std::stable_sort(b.begin(), b.end());
+  return first_diff(a, b);
+}
+
+// Runs one named case; returns "" or a mismatch description.
+std::string run_case(const std::string& c, size_t n, uint64_t dseed, int dist) {
+  Rng r(dseed);
+  const auto Par = ExecutionPolicy::Par;
+  if (c == "sort_i32") return sort_case<int32_t>(r, n, dist);
+  if (c == "sort_u32") return sort_case<uint32_t>(r, n, dist);
+  if (c == "sort_i64") return sort_case<int64_t>(r, n, dist);
+  if (c == "sort_u64") return sort_case<uint64_t>(r, n, dist);
+  if (c == "sort_i16") return sort_case<int16_t>(r, n, dist);
+  if (c == "sort_u8") return sort_case<uint8_t>(r, n, dist);
+  if (c == "sort_size_t") return sort_case<size_t>(r, n, dist);
+  if (c == "sort_cmp" || c == "sort_cmp_desc") {
+    std::vector<KT> a(n);
+    for (size_t i = 0; i < n; i++) a[i] = {(int)(r.next() % (dist == 1 ? 5 : 1000)) - 500, (int)i};
+    std::vector<KT> b = a;
+    if (c == "sort_cmp") {
+      manifold::stable_sort(Par, a.begin(), a.end(), KeyLess());
+      std::stable_sort(b.begin(), b.end(), KeyLess());
+    } else {
+      auto gt = [](const KT& x, const KT& y) { return x.key > y.key; };
+      manifold::stable_sort(Par, a.begin(), a.end(), gt);
+      std::stable_sort(b.begin(), b.end(), gt);
+    }
+    return first_diff(a, b);
+  }
+  if (c == "sort_double") {
+    std::vector<double> a(n);
+    for (auto& x : a) x = r.uni(-5, 5) * (r.below(4) == 0 ? 0 : 1);
+    std::vector<double> b = a;
+    manifold::stable_sort(Par, a.begin(), a.end());
+    std::stable_sort(b.begin(), b.end());
+    return first_diff(a, b);
+  }
+  if (c == "sort_vec_int") {  // Vec<int> iterators (pointers) -> radix path as used by the library
+    Vec<int> a(n);
+    std::vector<int> b(n);
+    for (size_t i = 0; i < n; i++) b[i] = a[i] = (int)(r.next() % 100000) - (dist == 0 ? 50000 : 0);
+    if (dist == 0) g_hasNeg = true;
+    manifold::stable_sort(a.begin(), a.end());  // autoPolicy
+    std::stable_sort(b.begin(), b.end());
+    std::vector<int> av(a.begin(), a.end());
+    return first_diff(av, b);
+  }
+  std::vector<int> in(n);
+  for (auto& x : in) x = (dist == 1) ? (int)(r.next() % 7) : (int)(r.next() % 2001) - 1000;
+  if (c == "for_each") {
+    std::vector<int> a(n, 0), b(n, 0);
+    manifold::for_each_n(Par, countAt(0), n, [&](int i) { a[i] = in[i] * 3 + 1; });
+    for (size_t i = 0; i < n; i++) b[i] = in[i] * 3 + 1;
+    return first_diff(a, b);
+  }
+  if (c == "transform") {
+    std::vector<int> a(n), b(n);
+    manifold::transform(Par, in.begin(), in.end(), a.begin(), [](int x) { return x * x - 7; });
+    std::transform(in.begin(), in.end(), b.begin(), [](int x) { return x * x - 7; });
+    return first_diff(a, b);
+  }
+  if (c == "copy") {
+    std::vector<int> a(n), b(n);
+    manifold::copy(Par, in.begin(), in.end(), a.begin());
+    std::copy(in.begin(), in.end(), b.begin());
+    std::string d = first_diff(a, b);
+    if (!d.empty()) return d;
+    std::vector<int> a2(n);
+    manifold::copy_n(Par, in.begin(), n, a2.begin());
+    return first_diff(a2, b);
+  }
+  if (c == "fill") {
+    std::vector<int> a(n, 1), b(n, 1);
+    manifold::fill(Par, a.begin(), a.end(), 42);
+    std::fill(b.begin(), b.end(), 42);
+    return first_diff(a, b);
+  }
+  if (c == "sequence") {
+    std::vector<int> a(n, -1), b(n);
+    manifold::sequence(Par, a.begin(), a.end());
+    std::iota(b.begin(), b.end(), 0);
+    return first_diff(a, b);
+  }
+  if (c == "reduce") {
+    std::vector<int64_t> v(in.begin(), in.end());
+    int64_t a = manifold::reduce(Par, v.begin(), v.end(), (int64_t)5, std::plus<int64_t>());
+    int64_t b = std::accumulate(v.begin(), v.end(), (int64_t)5);
+    if (a != b) return "sum";
+    auto mx = [](int64_t x, int64_t y) { return std::max(x, y); };
+    a = manifold::reduce(Par, v.begin(), v.end(), (int64_t)-100000, mx);
+    b = std::accumulate(v.begin(), v.end(), (int64_t)-100000, mx);
+    return a == b ? "" : "max";
+  }
+  if (c == "transform_reduce") {
+    int64_t a = manifold::transform_reduce(Par, in.begin(), in.end(), (int64_t)3, std::plus<int64_t>(),
+                                           [](int x) { return (int64_t)x * 2 + 1; });
+    int64_t b = 3;
+    for (int x : in) b += (int64_t)x * 2 + 1;
+    return a == b ? "" : "value";
+  }
+  if (c == "inclusive_scan") {
+    std::vector<int> a(n), b(n);
+    manifold::inclusive_scan(Par, in.begin(), in.end(), a.begin());
+    std::inclusive_scan(in.begin(), in.end(), b.begin());
+    return first_diff(a, b);
+  }
+  if (c == "inclusive_scan_inplace") {
+    std::vector<int> a = in, b(n);
+    manifold::inclusive_scan(Par, a.begin(), a.end(), a.begin());
+    std::inclusive_scan(in.begin(), in.end(), b.begin());
+    return first_diff(a, b);
+  }
+  if (c == "exclusive_scan") {
+    std::vector<int> a(n), b(n);
+    manifold::exclusive_scan(Par, in.begin(), in.end(), a.begin(), 11);
+    std::exclusive_scan(in.begin(), in.end(), b.begin(), 11);
+    return first_diff(a, b);
+  }
+  if (c == "exclusive_scan_abssum") {
+    std::vector<int> a(n), b(n);
+    manifold::exclusive_scan(Par, in.begin(), in.end(), a.begin(), 4, AbsSum());
+    std::exclusive_scan(in.begin(), in.end(), b.begin(), 4, AbsSum());
+    return first_diff(a, b);
+  }
+  if (c == "exclusive_scan_inplace") {
+    std::vector<int> a = in, b(n);
+    manifold::exclusive_scan(Par, a.begin(), a.end(), a.begin(), 0);
+    std::exclusive_scan(in.begin(), in.end(), b.begin(), 0);
+    return first_diff(a, b);
+  }
+  auto pred = [](int x) { return (x & 3) == 1; };
+  if (c == "copy_if") {
+    std::vector<int> a(n, -7), b(n, -7);
+    auto ea = manifold::copy_if(Par, in.begin(), in.end(), a.begin(), pred);
+    auto eb = std::copy_if(in.begin(), in.end(), b.begin(), pred);
+    if ((ea - a.begin()) != (eb - b.begin())) return "end";
+    return first_diff(a, b);
+  }
+  if (c == "remove_if") {
+    std::vector<int> a = in, b = in;
+    auto ea = manifold::remove_if(Par, a.begin(), a.end(), pred);
+    auto eb = std::remove_if(b.begin(), b.end(), pred);
+    if ((ea - a.begin()) != (eb - b.begin())) return "end";
+    a.resize(ea - a.begin());
+    b.resize(eb - b.begin());
+    return first_diff(a, b);
+  }
+  if (c == "remove") {
+    std::vector<int> a = in, b = in;
+    const int val = n ? in[n / 2] : 0;
+    auto ea = manifold::remove(Par, a.begin(), a.end(), val);
+    auto eb = std::remove(b.begin(), b.end(), val);
+    if ((ea - a.begin()) != (eb - b.begin())) return "end";
+    a.resize(ea - a.begin());
+    b.resize(eb - b.begin());
+    return first_diff(a, b);
+  }
+  if (c == "unique") {
+    std::vector<int> s = in;
+    std::sort(s.begin(), s.end());
+    std::vector<int> a = s, b = s;
+    auto ea = manifold::unique(Par, a.begin(), a.end());
+    auto eb = std::unique(b.begin(), b.end());
+    if ((ea - a.begin()) != (eb - b.begin())) return "end";
+    a.resize(ea - a.begin());
+    b.resize(eb - b.begin());
+    return first_diff(a, b);
+  }
+  if (c == "count_if") {
+    size_t a = manifold::count_if(Par, in.begin(), in.end(), pred);
+    size_t b = std::count_if(in.begin(), in.end(), pred);
+    return a == b ? "" : "count";
+  }
+  if (c == "all_of") {
+    bool a = manifold::all_of(Par, in.begin(), in.end(), [](int x) { return x > -2000; });
+    bool a2 = manifold::all_of(Par, in.begin(), in.end(), [&](int x) { return x != (n ? in[n - 1] : 0) || false; });
+    bool b2 = std::all_of(in.begin(), in.end(), [&](int x) { return x != (n ? in[n - 1] : 0) || false; });
+    if (!a) return "all_true";
+    return a2 == b2 ? "" : "all_false";
+  }
+  if (c == "gather" || c == "scatter") {
+    std::vector<int> map(n);
+    std::iota(map.begin(), map.end(), 0);
+    for (size_t i = n; i > 1; i--) std::swap(map[i - 1], map[r.below((uint32_t)i)]);
+    std::vector<int> a(n, 0), b(n, 0);
+    if (c == "gather") {
+      manifold::gather(Par, map.begin(), map.end(), in.begin(), a.begin());
+      for (size_t i = 0; i < n; i++) b[i] = in[map[i]];
+    } else {
+      manifold::scatter(Par, in.begin(), in.end(), map.begin(), a.begin());
+      for (size_t i = 0; i < n; i++) b[map[i]] = in[i];
+    }
+    return first_diff(a, b);
+  }
+  return "unknown_case";
+}
+
+std::string job_c13(const Args& a) {
+  SimSetup s = sim_setup(a);
+  const std::string c = a.s("case");
+  const size_t n = (size_t)a.u("n", 100);
+  std::string mism;
+  g_hasNeg = false;
+  SimOutcome out = run_simulated(s, [&]() { mism = run_case(c, n, a.u("dseed", 1), (int)a.i("dist", 0)); });
+  JObj j;
+  j.str("case", c).u64("n", n).str("mismatch", mism).boolean("has_neg", g_hasNeg).raw("sim", outcome_json(out));
+  return j.done();
+}
+
+// ------------------------------------------------------------- containers
+struct UFPlan {
+  std::vector<std::vector<std::array<int, 3>>> perThread;  // (kind, a, b): 0 unite, 1 find, 2 same
+};
+
+struct UFArgs {
+  DisjointSets* ds;
+  const std::vector<std::array<int, 3>>* ops;
+  std::vector<long>* results;
+};
+void uf_thread(void* p) {
+  UFArgs* u = static_cast<UFArgs*>(p);
+  for (auto& o : *u->ops) {
+    if (o[0] == 0)
+      u->results->push_back((long)u->ds->unite(o[1], o[2]));
+    else if (o[0] == 1)
+      u->results->push_back((long)u->ds->find(o[1]));
+    else
+      u->results->push_back(u->ds->same(o[1], o[2]) ? 1 : 0);
+  }
+}
+
+std::string job_c13uf(const Args& a) {
+  SimSetup s = sim_setup(a);
+  const int nThreads = (int)a.i("threads", 2), nElem = (int)a.i("elems", 8), nOps = (int)a.i("ops", 5);
+  Rng r(a.u("dseed", 1));
+  std::vector<std::vector<std::array<int, 3>>> plan(nThreads);
+  for (int t = 0; t < nThreads; t++)
+    for (int i = 0; i < nOps; i++) {
+      int k = r.below(10);
+      plan[t].push_back({k < 6 ? 0 : (k < 8 ? 1 : 2), (int)r.below(nElem), (int)r.below(nElem)});
+    }
+  std::string mism;
+  std::string planText;
+  for (int t = 0; t < nThreads; t++) {
+    planText += "T" + std::to_string(t) + ":";
+    for (auto& o : plan[t]) planText += (o[0] == 0 ? "u" : o[0] == 1 ? "f" : "s") + std::to_string(o[1]) + "-" + std::to_string(o[2]) + " ";
+  }
+  SimOutcome out = run_simulated(s, [&]() {
+    DisjointSets ds(nElem);
+    std::vector<std::vector<long>> res(nThreads);
+    std::vector<UFArgs> args(nThreads);
+    for (int t = 0; t < nThreads; t++) {
+      args[t] = {&ds, &plan[t], &res[t]};
+      sim::client(uf_thread, &args[t]);
+    }
+    sim::join_clients();
+    // sequential spec: naive union of all unite pairs
+    std::vector<int> comp(nElem);
+    std::iota(comp.begin(), comp.end(), 0);
+    auto findN = [&](int x) {
+      while (comp[x] != x) x = comp[x];
+      return x;
+    };
+    for (auto& th : plan)
+      for (auto& o : th)
+        if (o[0] == 0) {
+          int x = findN(o[1]), y = findN(o[2]);
+          if (x != y) comp[x] = y;
+        }
+    for (int i = 0; i < nElem && mism.empty(); i++)
+      for (int k = 0; k < nElem; k++) {
+        bool spec = findN(i) == findN(k);
+        bool impl = ds.find(i) == ds.find(k);
+        if (spec != impl) {
+          mism = "final_partition(" + std::to_string(i) + "," + std::to_string(k) + ")";
+          break;
+        }
+        if (ds.same(i, k) != spec) {
+          mism = "same(" + std::to_string(i) + "," + std::to_string(k) + ")";
+          break;
+        }
+      }
+    // every find/unite result is a member of the caller's final class; a
+    // `same` that returned true must be true in the final partition
+    for (int t = 0; t < nThreads && mism.empty(); t++)
+      for (size_t i = 0; i < plan[t].size(); i++) {
+        auto& o = plan[t][i];
+        long v = res[t][i];
+        if (o[0] == 2) {
+          if (v == 1 && findN(o[1]) != findN(o[2])) mism = "same_true_but_disjoint";
+        } else {
+          if (v < 0 || v >= nElem || findN((int)v) != findN(o[1])) mism = "find_result_outside_class";
+        }
+      }
+    // roots are fixed points and ranks consistent
+    for (int i = 0; i < nElem && mism.empty(); i++) {
+      size_t root = ds.find(i);
+      if (ds.find(root) != root) mism = "root_not_fixed_point";
+    }
+  });
+  JObj j;
+  j.str("plan", planText).str("mismatch", mism).raw("sim", outcome_json(out));
+  return j.done();
+}
+
+struct HTArgs {
+  HashTableD<int>* ht;
+  const std::vector<std::pair<uint64_t, int>>* ins;
+};
+void ht_thread(void* p) {
+  HTArgs* h = static_cast<HTArgs*>(p);
+  for (auto& kv : *h->ins) h->ht->Insert(kv.first, kv.second);
+}
+
+std::string job_c13ht(const Args& a) {
+  SimSetup s = sim_setup(a);
+  const int nThreads = (int)a.i("threads", 2), nOps = (int)a.i("ops", 4);
+  const int logSize = (int)a.i("logsize", 3);
+  Rng r(a.u("dseed", 1));
+  // Keys come from a small set so that threads collide on slots (and sometimes
+  // on the same key); the value is a function of the key, so that a key
+  // inserted by two threads still has one well-defined value.
+  std::vector<std::vector<std::pair<uint64_t, int>>> plan(nThreads);
+  for (int t = 0; t < nThreads; t++)
+    for (int i = 0; i < nOps; i++) {
+      uint64_t k = (uint64_t)r.below((uint32_t)a.i("keys", 6)) * 1000003ull + 17;
+      plan[t].push_back({k, (int)(k % 100000) * 3 + 1});
+    }
+  std::string planText, mism;
+  for (int t = 0; t < nThreads; t++) {
+    planText += "T" + std::to_string(t) + ":";
+    for (auto& kv : plan[t]) planText += std::to_string(kv.first) + "=" + std::to_string(kv.second) + " ";
+  }
+  bool full = false;
+  SimOutcome out = run_simulated(s, [&]() {
+    HashTable<int> table((size_t)1 << logSize, (uint32_t)a.i("step", 1));
+    HashTableD<int> d = table.D();
+    std::vector<HTArgs> args(nThreads);
+    for (int t = 0; t < nThreads; t++) {
+      args[t] = {&d, &plan[t]};
+      sim::client(ht_thread, &args[t]);
+    }
+    sim::join_clients();
+    full = table.Full();
+    std::map<uint64_t, std::set<int>> spec;
+    for (auto& th : plan)
+      for (auto& kv : th) spec[kv.first].insert(kv.second);
+    if (!full) {
+      for (auto& kv : spec) {
+        int v = d[kv.first];
+        // the key must be present with one of the inserted values
+        bool present = false;
+        for (int i = 0; i < d.Size(); i++)
+          if (d.KeyAt(i) == kv.first) present = true;
+        if (!present) {
+          mism = "key_missing:" + std::to_string(kv.first);
+          break;
+        }
+        if (!kv.second.count(v)) {
+          mism = "wrong_value:" + std::to_string(kv.first) + "->" + std::to_string(v);
+          break;
+        }
+      }
+      // no key stored twice
+      std::set<uint64_t> seen;
+      for (int i = 0; i < d.Size() && mism.empty(); i++) {
+        uint64_t k = d.KeyAt(i);
+        if (k == kOpen) continue;
+        if (!seen.insert(k).second) mism = "duplicate_key_slot:" + std::to_string(k);
+        if (!spec.count(k)) mism = "foreign_key:" + std::to_string(k);
+      }
+      if (mism.empty() && table.Entries() != spec.size()) mism = "entries_count";
+    }
+  });
+  JObj j;
+  j.str("plan", planText).str("mismatch", mism).boolean("full", full).raw("sim", outcome_json(out));
+  return j.done();
+}
+
+}  // namespace
+
+void register_c13() {
+  registry()["c13"] = job_c13;
+  registry()["c13uf"] = job_c13uf;
+  registry()["c13ht"] = job_c13ht;
+}
+
 }  // namespace vh
